@@ -1,7 +1,7 @@
 (* Props/C17.v -- C17: the predefined trees equal their mathematical definitions.  Property theorems only.
    All statements hold for every dimension n, every row/class index below n, every parameter value and every input x
    of length n; breakpoints and ties are ordinary inputs.  `on_row h i x` replaces component i of x by h(x_i). *)
-From AT Require Import Num Vec Aff PTree Schema SchemaProofs.
+From AT Require Import Num Vec Aff PTree Schema SchemaProofs SchemaSpec.
 
 (* the activation functions change exactly the named component ... *)
 Theorem C17_others_untouched : forall h i x k, k <> i -> nth k (on_row h i x) 0 = nth k x 0.
@@ -89,15 +89,69 @@ Theorem C17_from_poly_out : forall P f g x, ~ in_poly P x ->
   eval (from_poly P f g) x = option_map (fun g' => apply g' x) g.
 Proof. exact eval_from_poly_out. Qed.
 
+(* from_poly answers Ok exactly on dimension-compatible arguments with at least one constraint (explicit assertion) *)
+Theorem C17_from_poly_total : forall P f g, a_in P = a_in f -> a_mat P <> [] ->
+  (forall g', g = Some g' -> a_in g' = a_in P) -> from_poly_res P f g = SOk (from_poly P f g).
+Proof. exact from_poly_res_total. Qed.
+Theorem C17_from_poly_def : forall P f g x, eval (from_poly P f g) x = from_poly_def P f g x.
+Proof. exact eval_from_poly. Qed.
+
 (* remove_axes evaluates the tree with the dropped coordinates at 0; from_slice, composition and remove_axes together
-   give the restriction of the tree to the axis-aligned slice through the reference point *)
+   give the restriction of the tree to the axis-aligned slice through the reference point -- for EVERY reference
+   point, the one without a free axis included (y = [], the result is the constant t(r)) *)
 Theorem C17_remove_axes : forall n mask t t' y, remove_axes n mask t = SOk t' -> eval t' y = eval t (expand mask y).
 Proof. exact eval_remove_axes. Qed.
+Theorem C17_remove_axes_total : forall n mask t, length mask = n -> remove_axes n mask t = SOk (ra_tree mask t).
+Proof. exact remove_axes_total. Qed.
 Theorem C17_slice : forall r t y, wf (length r) t -> length y = count_true (map sc_isfree r) ->
   eval (slice_tree r t) y = eval t (embed r y).
 Proof. exact eval_slice_tree. Qed.
 Theorem C17_embed_fixed : forall r y k v, nth k r None = Some v -> nth k (embed r y) 0 = v.
 Proof. exact nth_embed_fixed. Qed.
+(* the finding: as found, remove_axes panicked when the mask keeps no axis (a slice that fixes every coordinate) *)
+Theorem C17_remove_axes_found_refuted : exists n mask t, length mask = n /\ wf n t /\ remove_axes_found n mask t = SPanic.
+Proof. exact remove_axes_found_refuted. Qed.
+Theorem C17_remove_axes_found_elsewhere : forall n mask t, existsb (fun b => b) mask = true ->
+  remove_axes_found n mask t = remove_axes n mask t.
+Proof. exact remove_axes_found_elsewhere. Qed.
+
+(* the textbook definitions in tree form (SchemaSpec.v), against which the implementation's trees are compared for all
+   inputs on every run: each denotes the executable definition *)
+Theorem C17_textbook_tree : forall n i h x, length x = n -> (i < n)%nat -> eval (htree n i h) x = Some (on_row (hsem h) i x).
+Proof. exact eval_htree. Qed.
+Theorem C17_textbook_relu : forall v, hsem relu_h v = qmax 0 v.
+Proof. exact relu_h_sem. Qed.
+Theorem C17_textbook_leaky_relu : forall alpha v, hsem (leaky_relu_h alpha) v = if qltb 0 v then v else alpha * v.
+Proof. exact leaky_relu_h_sem. Qed.
+Theorem C17_textbook_hard_tanh : forall lo hi v, lo <= hi -> hsem (hard_tanh_h lo hi) v = qmax lo (qmin hi v).
+Proof. exact hard_tanh_h_sem. Qed.
+Theorem C17_textbook_hard_shrink : forall lam v, hsem (hard_shrink_h lam) v = if qltb lam (qabs v) then v else 0.
+Proof. exact hard_shrink_h_sem. Qed.
+Theorem C17_textbook_hard_sigmoid : forall s v,
+  hsem (hard_sigmoid_h s) v = if qleb three v then 1 else if qleb v (- three) then 0 else s * v + half.
+Proof. exact hard_sigmoid_h_sem. Qed.
+Theorem C17_textbook_threshold : forall theta value v, hsem (threshold_h theta value) v = if qltb theta v then v else value.
+Proof. exact threshold_h_sem. Qed.
+Theorem C17_textbook_argmax : forall n x, (1 <= n)%nat -> length x = n -> eval (argmax_spec n) x = Some [qnat (argmax_def x)].
+Proof. exact spec_argmax. Qed.
+Theorem C17_textbook_class : forall n c x, length x = n -> (c < n)%nat -> eval (class_spec n c) x = Some [class_def c x].
+Proof. exact spec_class. Qed.
+Theorem C17_textbook_inf_norm : forall n lo hi x, length x = n -> eval (inf_norm_spec n lo hi) x = Some [inf_norm_def lo hi x].
+Proof. exact spec_inf_norm. Qed.
+Theorem C17_textbook_from_poly : forall P f g x, eval (from_poly_spec P f g) x = from_poly_def P f g x.
+Proof. exact spec_from_poly. Qed.
+Theorem C17_textbook_slice : forall r t y, eval (restrict_tree r t) y = eval t (embed r y).
+Proof. exact eval_restrict_tree. Qed.
+
+(* the slope constant: the f64 value of 1./6. is the double nearest to 1/6 (within half a unit in the last place), and
+   a slope error changes the hard sigmoid by at most three times that error, at every input *)
+Theorem C17_sixth_f64_nearest :
+  sc_sixth_f64 = qc_of_float 6004799503160661 (-55) /\
+  (4503599627370496 <= 6004799503160661 < 9007199254740992)%Z /\
+  qabs (sc_sixth_f64 - sixth) <= qc_of_float 1 (-56).
+Proof. exact sixth_f64_nearest. Qed.
+Theorem C17_hard_sigmoid_slope_error : forall s s' v, qabs (hsig s v - hsig s' v) <= three * qabs (s - s').
+Proof. exact hsig_slope_error. Qed.
 
 (* non-vacuity: breakpoints and ties *)
 Example C17_nonvacuous :
@@ -110,7 +164,10 @@ Example C17_nonvacuous :
   eval (inf_norm 2 (Some 0) (Some 1)) [0; 1] = Some [1] /\
   eval (inf_norm 2 (Some 0) None) [0; - (1)] = Some [0] /\
   eval (from_poly (sc_unit 2 0) (sc_constant 2 1) None) [1; 0] = None /\
-  eval (slice_tree [None; Some 1] (partial_relu 2 0)) [- (1)] = Some [0; 1].
+  eval (slice_tree [None; Some 1] (partial_relu 2 0)) [- (1)] = Some [0; 1] /\
+  eval (slice_tree [Some (- (1)); Some 1] (partial_relu 2 0)) [] = Some [0; 1] /\
+  eval (htree 2 1 (hard_shrink_h 1)) [1 + 1; 1] = Some [1 + 1; 0] /\
+  eval (argmax_spec 3) [1; 1 + 1; 1 + 1] = Some [qnat 1].
 Proof. repeat split; vm_compute; reflexivity. Qed.
 
 Print Assumptions C17_others_untouched.
@@ -140,3 +197,22 @@ Print Assumptions C17_from_poly_out.
 Print Assumptions C17_remove_axes.
 Print Assumptions C17_slice.
 Print Assumptions C17_embed_fixed.
+Print Assumptions C17_from_poly_total.
+Print Assumptions C17_from_poly_def.
+Print Assumptions C17_remove_axes_total.
+Print Assumptions C17_remove_axes_found_refuted.
+Print Assumptions C17_remove_axes_found_elsewhere.
+Print Assumptions C17_textbook_tree.
+Print Assumptions C17_textbook_relu.
+Print Assumptions C17_textbook_leaky_relu.
+Print Assumptions C17_textbook_hard_tanh.
+Print Assumptions C17_textbook_hard_shrink.
+Print Assumptions C17_textbook_hard_sigmoid.
+Print Assumptions C17_textbook_threshold.
+Print Assumptions C17_textbook_argmax.
+Print Assumptions C17_textbook_class.
+Print Assumptions C17_textbook_inf_norm.
+Print Assumptions C17_textbook_from_poly.
+Print Assumptions C17_textbook_slice.
+Print Assumptions C17_sixth_f64_nearest.
+Print Assumptions C17_hard_sigmoid_slope_error.
